@@ -1,5 +1,5 @@
 SPECIFICATION Spec
-CONSTANTS NLoops = 1  MaxConns = 0  MaxRegs = 1  ReusePort = FALSE  Ticker = FALSE
+CONSTANTS NLoops = 1  MaxConns = 0  MaxRegs = 1  ReusePort = FALSE  LB = "any"  Ticker = FALSE
           Sources = {"stop"}
 INVARIANTS RegsAnswered
 CHECK_DEADLOCK FALSE
